@@ -8,6 +8,7 @@ import Pyxv.Model.OpsBinds
 import Pyxv.Model.OpsChoices
 import Pyxv.Model.OpsEntities
 import Pyxv.Model.OpsSettings
+import Pyxv.Model.OpsRefs
 /-!
 Driver: one JSON request per line on stdin, one JSON reply per line on stdout.
 `{"op": "<name>", …}` → `{"ok": true, "v": …}` | `{"ok": false, "err": "…"}`.
@@ -15,7 +16,7 @@ Driver: one JSON request per line on stdin, one JSON reply per line on stdout.
 open Lean Pyxv
 
 def handlers : List (String → Json → Option (Except String Json)) :=
-  [Xml.opsXml, Form.opsForm, Validator.opsValidator, Chan.opsChannel, Texts.opsTexts, Process.opsProcess, Binds.opsBinds, Choices.opsChoices, Entities.opsEntities, Settings.opsSettings]
+  [Xml.opsXml, Form.opsForm, Validator.opsValidator, Chan.opsChannel, Texts.opsTexts, Process.opsProcess, Binds.opsBinds, Choices.opsChoices, Entities.opsEntities, Settings.opsSettings, Refs.opsRefs]
 
 def dispatch (op : String) (j : Json) : Except String Json :=
   let rec go : List (String → Json → Option (Except String Json)) → Except String Json
